@@ -128,6 +128,20 @@ theorem getD_block {γ : Type} (n1 n2 : Nat) (g : Nat → Nat → γ) (d : γ) (
       rw [List.getElem?_append_right this, length_block]
       simp [hb]
 
+theorem length_flatMap_map {β γ δ : Type} (h : List β) (w : List γ) (g : β → γ → δ) :
+    (h.flatMap fun hi => w.map (g hi)).length = h.length * w.length := by
+  induction h with
+  | nil => simp
+  | cons a as ih => simp [List.flatMap_cons, ih, Nat.succ_mul, Nat.add_comm]
+
+/-- number of weights produced by `make_iterated_quadrature` -/
+theorem length_iteratedQuadrature_weights (half : α) (xg wg : List α) (a : α) (rest : List α) :
+    (iteratedQuadrature half xg wg (a :: rest)).2.length = rest.length * wg.length := by
+  unfold iteratedQuadrature gaussRule
+  simp only
+  rw [length_flatMap_map]
+  simp
+
 theorem map_eq_map_range {β γ : Type} (l : List β) (d : β) (f : β → γ) :
     l.map f = (List.range l.length).map fun k => f (l.getD k d) := by
   apply List.ext_getElem
